@@ -5,6 +5,7 @@ class C02(OptCheck):
     prop = "C02"
     vfiles = ["Properties/Properties_C02.v"]
     corpus = "C02.txt"
+    oracle_args = ("oracle", "C02")
     design_ref = "DESIGN.md section 6, C02"
     technique = "Coq proof: parse (render items tail) = assignment items tail for every well-formed item list (round trip through explain) + differential run over random renderings of intended assignments"
     level_text = ""
